@@ -22,7 +22,12 @@ static RuleInfo* g_ri[VF_N]; static HTask* g_task[VF_N];
 // VF_RESOLVE 1: the whole resolveCycle step - the list is the one handed to the client's cycleDetected()
 static std::vector<Rule*>* g_reported = nullptr; static int g_reports = 0;
 struct CDelegate : public HDelegate { void cycleDetected(const std::vector<Rule*>& items) override { g_reports++; g_reported = new std::vector<Rule*>(items); } };
-extern "C" RuleInfo* stub_getRuleInfoForKeyType(BuildEngineImpl*, const KeyType*) { return g_ri[0]; }
+static uint8_t g_key[VF_N];
+// key -> rule info: the requested key ("root", 4 bytes) is rule 0; a rule's own 1-byte key names that rule (keys are pairwise distinct)
+extern "C" RuleInfo* stub_getRuleInfoForKeyType(BuildEngineImpl*, const KeyType* key) {
+  if (key->size() == 1) for (unsigned i = 0; i < VF_N; i++) if ((uint8_t)key->data()[0] == g_key[i]) return g_ri[i];
+  return g_ri[0];
+}
 // the hash of a pointer is any function of it: an injective small number keeps the real hash tables' bucket arithmetic concrete
 extern "C" size_t stub_hash_task(const void*, Task* t) { for (unsigned i = 0; i < VF_N; i++) if (t == g_task[i]) return i + 1; return 0; }
 extern "C" size_t stub_hash_rule(const void*, Rule* r) { for (unsigned i = 0; i < VF_N; i++) if (r == g_ri[i]->rule.get()) return i + 1; return 0; }
@@ -35,10 +40,14 @@ extern "C" void harness_cycle(void) {
   TaskInfo* ti[VF_N]; uint8_t key[VF_N];
   for (unsigned i = 0; i < VF_N; i++) {
     key[i] = nondet_u8(); for (unsigned k = 0; k < i; k++) VF_ASSUME(key[k] != key[i]);      // distinct keys, any order
+    g_key[i] = key[i];
     KeyID id; id._value = i + 1;
     auto it = impl->ruleInfos.emplace(id, RuleInfo(id, std::unique_ptr<Rule>(new HRule(KeyType(std::string(1, (char)key[i])), CommandSignature(0))))).first;
     g_ri[i] = &it->second;
     g_task[i] = nullptr; g_rec[i] = nullptr; ti[i] = nullptr;
+#if defined(VF_PRIOR) && VF_PRIOR
+    g_ri[i]->result.builtAt = nondet_bool() ? 1 : 0;      // any rule may or may not have a result from an earlier build (a candidate for "supply the prior value")
+#endif
     if (scanning(i)) { g_ri[i]->state = RuleInfo::StateKind::IsScanning; g_rec[i] = new BuildEngineImpl::RuleScanRecord; g_ri[i]->inProgressInfo.pendingScanRecord = g_rec[i]; }
     else { g_ri[i]->state = RuleInfo::StateKind::InProgressWaiting; g_task[i] = new HTask; }
   }
